@@ -19,11 +19,61 @@ PROPS = {
     },
 }
 
+
+EVAL_TB = COMMON_TB + [
+    "modelled, not verified (validated by the correspondence on every run): reflect semantics for the kinds in the type zoo, fastprinter.PrintValue (4096-byte chunking, ints, bools, []byte, fmt.Fprint of flat composites), text/template.HTMLEscape, strconv.ParseInt, path.Clean/Join/Dir; float formatting is delegated to the implementation through placeholders",
+    "the Go parser is NOT modelled for these properties: the evaluator model runs on the AST the real parser produced (dumped by the verif hook VerifDumpTemplate, with Line/TemplatePath of every node)",
+    "outside the model (reported as 'unsupported', excluded and counted): printing of structs/pointers/nested composites, non-ASCII case mapping, assignment through fields, Stringer/Renderer values other than the hidden booleans, channels, custom Rangers, dump, msg/trans, complex numbers",
+]
+EVAL_RULE = "stream 'eval': random template sets (main + partials in sub-directories + exec target + optional extends chain/import library) over a fixed variable environment (ints, floats, strings with HTML-special bytes, typed and interface slices, maps, structs, nil pointers/maps/slices/interfaces, registry functions) with the flavour's constructs weighted up; stream 'oracle': programs built bottom-up together with the output the property demands (direct oracle, independent of the model). Every case is non-trivial (>= 2 statements, executes through the real parser and evaluator); distinct = distinct (stream, AST+inputs)."
+EVAL_ASSUME = ["single goroutine per Execute", "map iteration order is abstracted: bodies of ranges over maps emit delimited records that are sorted on both sides"]
+def evalprop(flavor, extra=""):
+    return {"lean_modules": None, "rule": EVAL_RULE + " Flavour: " + flavor + ". " + extra, "trusted_base": EVAL_TB, "assumptions": EVAL_ASSUME,
+            "explanation": "Theorems are proved about the evaluator model for every program, runtime state and fuel (see Lemmas/EvalGood.lean: recGood_recAt); tie B compares output bytes, result class, error (file,line) and probe logs of the real Execute with the model on the same AST and inputs."}
+for pid, fl in [("C01","escape"),("C05","control"),("C07","scope"),("C09","include"),("C12","errors"),("C13","try"),("C17","isset")]:
+    PROPS[pid] = evalprop(fl)
+    PROPS[pid]["lean_modules"] = [pid]
+
 # Texts for MANIFEST.json (gen_manifest.py)
 MANIFEST_TEXT = {
     "C15": {
         "level": "Machine-checked Lean 4 theorems over all name spellings and all absolute referring names: the path computation of getSiblingTemplate / Parse / InMemLoader.normalize always yields a canonical path (absolute, clean, no '.', '..' or empty segment), canonical names are fixed points, resolution is idempotent. The model is tied to /repo on every run by differential correspondence: the same spellings go through the real Set with a recording loader and through the model.",
         "note": "Trusted: Lean kernel + {propext, Classical.choice, Quot.sound}; segment-level model of Go's path package (validated against the stdlib each run, not verified); harness and protocol; OS loader containment is exercised on a temp tree, not proved.",
         "technique": "Lean 4 proof (induction over segment lists) about a hand-written model + differential correspondence with the implementation",
+    },
+    "C01": {
+        "level": "Machine-checked Lean 4 theorems: the default escaper is a byte homomorphism that never emits a raw < > ' \" or NUL (all inputs); an action's printed value reaches the destination as the Set's escaper applied once per write of the printed form, a SafeWriter writes through its own escaper instead, literal text is written raw; the buffering plumbing (try, exec) neither re-escapes nor loses chunks (C13/C09 theorems over every program and fuel). Tied to /repo by differential execution of random and constructive template sets.",
+        "note": "Trusted: Lean kernel + standard axioms; model of fastprinter/HTMLEscape/reflect validated by correspondence, not verified; AST comes from the real parser via the verif hook; custom escapers other than the registered test escaper are outside the model.",
+        "technique": "Lean 4 proof (induction over bytes; invariant over the fuel-indexed evaluator) + differential correspondence + constructive direct oracle",
+    },
+    "C05": {
+        "level": "Lean 4 theorems: truthiness table (false, zero numbers, empty string, nil values are falsy; interface elements are unwrapped); an if runs exactly the then-list / the else-list / nothing; slice and ints rangers yield every element once in order with indices 0..n-1; an empty ranger runs the else-list iff present and a non-empty one never does; '.' is restored after each body. Tie: differential execution incl. constructive oracle (exactly one branch, DEAD markers, per-element output).",
+        "note": "Known finding D13 (return inside a range body ends the loop) is pinned by the suite and excluded by hypothesis. Channel and custom Rangers are outside the model (exercised only by the oracle stream through the implementation).",
+        "technique": "Lean 4 proof about the evaluator model + differential correspondence + constructive direct oracle",
+    },
+    "C07": {
+        "level": "Lean 4 theorem for every statement list, runtime state and fuel: after it finishes the scope chain is the same chain of scope objects, '.', block content and destination are unchanged (recGood_recAt); resolution order (scopes innermost first, Execute variables, globals, built-ins) and assignment to the innermost declaring scope are proved from the definitions. Tie: differential execution of scope-heavy programs + constructive oracle (shadowing, let visibility, probes after bodies).",
+        "note": "Value stability of stored loop variables (D17) is covered by correspondence, not by a theorem. Assignment through fields (mutating Go data) is outside the model.",
+        "technique": "Lean 4 proof (invariant by induction on fuel over an open-recursion evaluator) + differential correspondence + constructive direct oracle",
+    },
+    "C09": {
+        "level": "Lean 4 theorems: any body run with the destination swapped for Discard (exec) leaves every existing sink untouched, on success and on failure; include/exec/includeIfExists restore scope chain, context, content and destination; the value of a list is the value of the last return executed. Tie: differential execution with include/exec/includeIfExists at depth, relative names, return at every position; constructive oracle predicts exec values and silence.",
+        "note": "Template lookup for include/exec uses the Path model (C15) against the pre-parsed store; cache/loader interaction is C16.",
+        "technique": "Lean 4 proof about the evaluator model + differential correspondence + constructive direct oracle",
+    },
+    "C12": {
+        "level": "Lean 4 theorems: output only grows (what was rendered before a failure is still there, nothing is taken back), a failing statement ends its list (nothing after it runs), errors raised at a node carry that node's file and line and returned helper errors are positioned at the calling node. Tie: differential execution comparing result class and (file,line) of every error; constructive oracle plants a failing action of each class and checks prefix output and the reported position.",
+        "note": "'Never panics' is not proved as a theorem for the whole evaluator (the model has explicit crash outcomes that mirror Go); it is checked by correspondence and the oracle. Errors raised inside called functions need not carry a position (as the property says).",
+        "technique": "Lean 4 proof about the evaluator model + differential correspondence + constructive direct oracle",
+    },
+    "C13": {
+        "level": "Lean 4 theorems for every body, every failure point and every fuel: a failed body (error or runtime panic) leaves every pre-existing sink byte-for-byte unchanged and the catch clause starts from the scope chain, context, content and destination the try started with; a successful body's buffer is copied once, unchanged, to the saved destination; after the statement everything is restored. Tie: differential execution of try-heavy programs + constructive oracle.",
+        "note": "That the body renders the same bytes inside and outside try (writer parametricity) is covered by correspondence, not by a theorem.",
+        "technique": "Lean 4 proof (invariant by induction on fuel) + differential correspondence + constructive direct oracle",
+    },
+    "C17": {
+        "level": "Lean 4 theorems: Runtime.isSet, Arguments.IsSet and the isset built-in with >= 1 argument never produce an error or runtime panic, for every expression, data and fuel; zero values are set, nil values are not; a piped argument is judged by its value. Tie: differential execution over access paths valid/invalid at every depth, direct and piped; constructive oracle.",
+        "note": "Exactness (true iff every step exists) is covered by correspondence against the implementation and the oracle, not yet by a theorem against an independent existence spec.",
+        "technique": "Lean 4 proof about the evaluator model + differential correspondence + constructive direct oracle",
     },
 }
